@@ -1,17 +1,14 @@
 SPECIFICATION Spec
 CONSTANTS
-  Proto = "relayEntry"
+  Protos = {"relayEntry"}
   N = 3
   Controlled = {1, 2, 3}
-  Step = 3
   Start = 2
-  Timeout = 9
-  EntryMod = 0
+  EntryMods = {0, 1, 2}
   Indexing = "asCoded"
-  Submitter = 0
-  Challenge = 0
-  Precedence = 0
-  MaxBlock = 12
-  Gates = {TRUE, FALSE}
+  Submitters = {1, 2, 3}
+  Challenge = 4
+  Precedence = 2
   Faults = {"none"}
-INVARIANTS TypeOK RelayBeforeTimeout RelaySlotBeforeTimeoutBlock
+  Gates = {TRUE}
+INVARIANTS TypeOK RelaySlotBeforeTimeoutBlock
